@@ -531,17 +531,31 @@ def r8(R):
                   '%s has no scan loop comparing h.oid' % f.qualname)
         n += 1
         R.instance('%s scan loop' % f.short)
+        bad = []
         for r in ast.walk(scan):
             if isinstance(r, ast.Return) and not (
                     isinstance(r.value, ast.Constant) and not r.value.value):
-                R.violation(
-                    (f.module.relpath, f.qualname,
-                     ' '.join(ast.unparse(r).split()), r.lineno),
-                    '%s returns the position of the FIRST record of the '
-                    'object found in the transaction; load, undo and the '
-                    'sibling implementation use the LAST one, so a '
-                    'backpointer into a transaction that undid several '
-                    'transactions at once is redirected to an intermediate '
-                    'state' % f.short, key='first-match return in scan loop')
+                bad.append(r)
+        # leaving the loop on a match (break) is a first-match search too
+        for i_ in ast.walk(scan):
+            if isinstance(i_, ast.If) and any(
+                    isinstance(c, ast.Compare) and isinstance(
+                        c.left, ast.Attribute) and c.left.attr == 'oid' and
+                    isinstance(c.ops[0], ast.Eq)
+                    for c in ast.walk(i_.test)):
+                for x in i_.body:
+                    for y in ast.walk(x):
+                        if isinstance(y, ast.Break):
+                            bad.append(y)
+        for r in bad:
+            R.violation(
+                (f.module.relpath, f.qualname,
+                 ' '.join(ast.unparse(r).split()), r.lineno),
+                '%s stops at the FIRST record of the object found in the '
+                'transaction; load, undo and the sibling implementation '
+                'use the LAST one, so a backpointer into a transaction '
+                'that undid several transactions at once is redirected to '
+                'an intermediate state' % f.short,
+                key='first-match exit from scan loop')
     R.require(n >= 2, 'expected FileStorage._data_find and '
               'PackCopier._data_find')
